@@ -52,6 +52,7 @@ type opIn struct {
 	Ans     string   `json:"ans,omitempty"`     // accept in_mempool known confirmed reject
 	NFail   bool     `json:"nfail,omitempty"`   // the hand-over's NotifyReceived fails
 	NFailC  bool     `json:"nfailc,omitempty"`  // send: the first NotifyReceived of the call fails
+	Own     []int64  `json:"own,omitempty"`     // publish/send: additional outputs paying fresh addresses of the wallet itself
 	Lease   bool     `json:"lease,omitempty"`   // publish: lease the inputs before publishing
 	Which   string   `json:"which,omitempty"`   // republish: unconf conf forgotten
 	Pick    int      `json:"pick,omitempty"`    // republish / lease / confirm: choice index
@@ -780,15 +781,42 @@ func classOf(op opIn) string {
 	return op.Ans
 }
 
+// outputs of a publish/send: the payment to a stranger (unless Amt < 0) and
+// one output per entry of Own to a fresh external address of the wallet.
+func (wd *world) outputs(op opIn) ([]*wire.TxOut, error) {
+	var outs []*wire.TxOut
+	if op.Amt >= 0 {
+		amt, err := wd.payment(op)
+		if err != nil {
+			return nil, err
+		}
+		if amt < 10000 {
+			return nil, errors.New("amount below the harness minimum")
+		}
+		outs = append(outs, wire.NewTxOut(amt, wd.payee))
+	}
+	for _, a := range op.Own {
+		addr, err := wd.w.NewAddress(0, scope84)
+		if err != nil {
+			return nil, err
+		}
+		pk, err := txscript.PayToAddrScript(addr)
+		if err != nil {
+			return nil, err
+		}
+		outs = append(outs, wire.NewTxOut(a, pk))
+	}
+	if len(outs) == 0 {
+		return nil, errors.New("no outputs")
+	}
+	return outs, nil
+}
+
 func (wd *world) createTx(op opIn) (*wire.MsgTx, error) {
-	amt, err := wd.payment(op)
+	outs, err := wd.outputs(op)
 	if err != nil {
 		return nil, err
 	}
-	if amt < 10000 {
-		return nil, errors.New("amount below the harness minimum")
-	}
-	outs := []*wire.TxOut{wire.NewTxOut(amt, wd.payee)}
 	at, err := wd.w.CreateSimpleTx(&scope84, 0, outs, op.Minconf, 2000, wallet.CoinSelectionLargest, false)
 	if err != nil {
 		return nil, err
@@ -854,10 +882,20 @@ func ansOrAccept(a string) string {
 }
 
 func (wd *world) tagChain(ti *txInfo, before snapshot) {
+	perParent := map[uint64]int{}
 	for _, in := range ti.out.Ins {
 		if has(before.Unmined, in[0]) > 0 {
 			wd.tags["chained_unconfirmed_spend"] = true
+			perParent[in[0]]++
 		}
+	}
+	for _, n := range perParent {
+		if n >= 2 {
+			wd.tags[fmt.Sprintf("consolidates_%d_outputs_of_unconfirmed_parent", min(n, 3))] = true
+		}
+	}
+	if len(ti.out.Creds) >= 3 {
+		wd.tags["tx_with_several_wallet_outputs"] = true
 	}
 	if len(wd.descendants(ti.id, before.Unmined)) > 0 {
 		wd.tags["has_unconfirmed_descendants"] = true
@@ -865,11 +903,8 @@ func (wd *world) tagChain(ti *txInfo, before snapshot) {
 }
 
 func (wd *world) opSend(op opIn) error {
-	amt, err := wd.payment(op)
-	if err != nil {
-		return err
-	}
-	if amt < 10000 {
+	outs, oerr := wd.outputs(op)
+	if oerr != nil {
 		_, err := wd.emit(evOut{K: "nop"}, "send:create_failed")
 		return err
 	}
@@ -877,7 +912,6 @@ func (wd *world) opSend(op opIn) error {
 	if err != nil {
 		return err
 	}
-	outs := []*wire.TxOut{wire.NewTxOut(amt, wd.payee)}
 	class := classOf(op)
 	pass, nf := 0, 0
 	switch {
@@ -1124,9 +1158,24 @@ func (wd *world) tagResend(before snapshot, answers []string) {
 			wd.tags["resend_answer:"+a] = true
 		}
 	}
+	byID := map[uint64]*txInfo{}
+	for _, ti := range wd.txs {
+		byID[ti.id] = ti
+	}
 	for _, id := range before.Unmined {
 		if len(wd.descendants(id, before.Unmined)) > 0 {
 			wd.tags["resend_with_chain"] = true
+		}
+		per := map[uint64]int{}
+		for _, in := range byID[id].out.Ins {
+			if has(before.Unmined, in[0]) > 0 {
+				per[in[0]]++
+			}
+		}
+		for _, n := range per {
+			if n >= 2 {
+				wd.tags["resend_with_multi_edge_child"] = true
+			}
 		}
 	}
 }
@@ -1331,6 +1380,34 @@ func systematic(seed int64) []caseIn {
 			}
 		}
 	}
+	// an unconfirmed child that consolidates TWO or THREE outputs of ONE
+	// unconfirmed wallet parent (parallel edges of the spend graph), with a
+	// grandchild, re-broadcast directly / after a restart / after a full
+	// resynchronisation, all accepted and with one refusal at each position
+	for _, childAmt := range []int64{600000, 900000} { // two / three outputs of the parent
+		for _, mode := range []string{"", "resend", "sync"} {
+			for pos := -1; pos < 3; pos++ {
+				ops := []opIn{
+					{K: "fund", Amts: []int64{1000000}},
+					{K: "publish", Amt: -1, Own: []int64{300000, 250000}, Minconf: 1}, // parent: two own outputs + change
+					{K: "publish", Amt: childAmt, Minconf: 0},                         // child spends several of them
+					{K: "send", Amt: 20000, Minconf: 0},                               // grandchild
+				}
+				answers := []string{"accept", "accept", "accept"}
+				if pos >= 0 {
+					answers[pos] = []string{"reject", "known", "in_mempool"}[pos]
+				}
+				if mode == "" {
+					ops = append(ops, opIn{K: "resend", Answers: answers})
+				} else {
+					ops = append(ops, opIn{K: "restart", Mode: mode, Answers: answers})
+				}
+				ops = append(ops, opIn{K: "resend"}, opIn{K: "confirm", N: 3}, opIn{K: "resend"})
+				n++
+				out = append(out, caseIn{Seed: seed*100000 + n, Ops: ops})
+			}
+		}
+	}
 	// SendOutputs whose own subscriptions fail (while creating / in the hand-over)
 	for _, v := range []opIn{{K: "send", Amt: 250000, Minconf: 1, NFail: true}, {K: "send", Amt: 250000, Minconf: 1, NFailC: true},
 		{K: "send", Amt: 250000, Minconf: 0, NFail: true, Ans: "reject"}} {
@@ -1365,6 +1442,16 @@ func randomCase(r *gen.R, seed int64, long bool) caseIn {
 		switch r.Pick(30, 22, 10, 8, 8, 6, 5, 5, 4, 2) {
 		case 0:
 			op = opIn{K: "publish", Pct: r.Range(5, 70), Minconf: int32(r.Pick(3, 2)), Lease: r.Chance(1, 6)}
+			if r.Chance(1, 5) {
+				// a transaction with several wallet outputs, then (next op) a
+				// spend large enough to need more than one coin
+				op.Amt, op.Lease = -1, false
+				for j := r.Range(2, 3); j > 0; j-- {
+					op.Own = append(op.Own, int64(r.Range(80, 400))*1000)
+				}
+				c.Ops = append(c.Ops, withClass(op, classes[r.Pick(8, 4, 1, 1, 1, 1)]))
+				op = opIn{K: []string{"publish", "send"}[r.Intn(2)], Pct: r.Range(75, 97), Minconf: 0}
+			}
 		case 1:
 			op = opIn{K: "send", Pct: r.Range(5, 70), Minconf: int32(r.Pick(3, 2))}
 			if r.Chance(1, 12) {
